@@ -25,19 +25,36 @@ let split_on (sep: string) (l: string list) : string list list =
 (* ids of timers whose foreign add is between its two micro-steps (FN done, FQ not yet): the id is not
    known to anybody else before addTimer returns *)
 let inflight_ids : (int, int * int) Hashtbl.t = Hashtbl.create 16
+let pending_infl : (int * (int * int)) list ref = ref []   (* FN ops of the step being executed: confirmed when it is Ok *)
 (* adds inside the body of a user functor (Q { ... }) execute later, when doPendingFunctors runs the
    functor: their sequence numbers are learnt from the EAdd events of that step (matched by address) *)
-let qadds : (int * int) list ref = ref []      (* (addr, tag), oldest first *)
+let qadds : (int * int * bool) list ref = ref []      (* (addr, tag, in-flight only), oldest first *)
 let learn_adds (evs: event list) : unit =
   List.iter (fun e -> match e with
     | EAdd (s, a, _, _) ->
         let a = iz a in
         let rec go acc = function
           | [] -> ()
-          | (a', tag) :: r when a' = a -> Hashtbl.replace ids tag (a, iz s); qadds := List.rev_append acc r
+          | (a', tag, infl) :: r when a' = a ->
+              Hashtbl.replace (if infl then inflight_ids else ids) tag (a, iz s); qadds := List.rev_append acc r
           | x :: r -> go (x :: acc) r in
         go [] !qadds
     | _ -> ()) evs
+(* an in-flight add whose Timer has left the in-flight set has been handed off (CFEnq is the only way out):
+   addTimer has returned, the id is public *)
+let publish (st: state) : unit =
+  let gone = Hashtbl.fold (fun tag (a, s) acc -> if List.exists (fun x -> iz x = a) st.inflight then acc else (tag, (a, s)) :: acc)
+               inflight_ids [] in
+  List.iter (fun (tag, id) -> Hashtbl.remove inflight_ids tag; Hashtbl.replace ids tag id) gone
+(* the interval token: an integer = microseconds (<= 0: not repeating), "<n>ns" = the double n/1e9 seconds that
+   Timer::restart turns into static_cast<int64_t>(interval * 1e6) microseconds, exactly as addTime does it
+   (IEEE double product, truncation).  Model encoding: -1 = not repeating, delta >= 0 = repeating *)
+let iv_of (t: string) : int =
+  let n = String.length t in
+  if n > 2 && String.sub t (n - 2) 2 = "ns" then begin
+    let ns = float_of_string (String.sub t 0 (n - 2)) in
+    if ns > 0.0 then Int64.to_int (Int64.of_float ((ns /. 1e9) *. 1000000.0)) else -1
+  end else (let v = int_of_string t in if v > 0 then v else -1)
 (* resolve one cbop; [seqc] = the sequence counter the model will have when the op executes
    (adds that are statically acceptable consume one number); [deferred] = inside a Q body *)
 let rec resolve ?(deferred=false) (seqc: int ref) (w: string list) : cbop =
@@ -45,26 +62,40 @@ let rec resolve ?(deferred=false) (seqc: int ref) (w: string list) : cbop =
   let add tag wh iv =
     let a = try Hashtbl.find addr_tab tag with Not_found -> 0 in
     if wh > 0 && a > 0 then begin
-      if deferred then qadds := !qadds @ [(a, tag)]
+      if deferred then qadds := !qadds @ [(a, tag, false)]
       else begin incr seqc; Hashtbl.replace ids tag (a, !seqc) end
     end;
     (zi wh, zi iv, zi a) in
   match w with
   | ["T"; d] -> CTick (zi (int_of_string d))
-  | ["A"; tag; wh; iv] -> let (x, y, z) = add (int_of_string tag) (int_of_string wh) (int_of_string iv) in CAdd (x, y, z)
-  | ["FA"; tag; wh; iv] -> let (x, y, z) = add (int_of_string tag) (int_of_string wh) (int_of_string iv) in CFAdd (x, y, z)
+  | ["A"; tag; wh; iv] -> let (x, y, z) = add (int_of_string tag) (int_of_string wh) (iv_of iv) in CAdd (x, y, z)
+  | ["FA"; tag; wh; iv] -> let (x, y, z) = add (int_of_string tag) (int_of_string wh) (iv_of iv) in CFAdd (x, y, z)
   | ["C"; tag] -> let (a, s) = id_of (int_of_string tag) in CCancel (zi a, zi s)
   | ["FC"; tag] -> let (a, s) = id_of (int_of_string tag) in CFCancel (zi a, zi s)
-  | ["FN"; tag; wh; iv] when not deferred ->
+  | ["FN"; tag; wh; iv] ->
       let tag = int_of_string tag and wh = int_of_string wh in
       let a = try Hashtbl.find addr_tab tag with Not_found -> 0 in
-      if wh > 0 && a > 0 then begin incr seqc; Hashtbl.replace inflight_ids tag (a, !seqc) end;
-      CFNew (zi wh, zi (int_of_string iv), zi a)
-  | ["FQ"; tag] when not deferred ->
+      if wh > 0 && a > 0 then begin
+        if deferred then qadds := !qadds @ [(a, tag, true)]
+        else begin incr seqc; pending_infl := (tag, (a, !seqc)) :: !pending_infl end
+      end;
+      CFNew (zi wh, zi (iv_of iv), zi a)
+  | ["FQ"; tag] ->
+      (* the Timer the tag's in-flight add constructed (the allocation may still lie ahead when this is a Q body) *)
       let tag = int_of_string tag in
-      (match (try Some (Hashtbl.find inflight_ids tag) with Not_found -> None) with
-       | Some (a, s) -> Hashtbl.remove inflight_ids tag; Hashtbl.replace ids tag (a, s); CFEnq (zi a)
-       | None -> CFEnq (zi 0))
+      let known = Hashtbl.mem inflight_ids tag || List.mem_assoc tag !pending_infl
+                  || List.exists (fun (_, t, infl) -> t = tag && infl) !qadds in
+      (* executed now (top level / callback script): the id is public for the ops that follow in the same script;
+         inside a Q body it becomes public when the functor has run (publish) *)
+      (if not deferred then begin
+         (match (try Some (Hashtbl.find inflight_ids tag) with Not_found -> None) with
+          | Some id -> Hashtbl.remove inflight_ids tag; Hashtbl.replace ids tag id
+          | None ->
+              (match (try Some (List.assoc tag !pending_infl) with Not_found -> None) with
+               | Some id -> pending_infl := List.remove_assoc tag !pending_infl; Hashtbl.replace ids tag id
+               | None -> ()))
+       end);
+      CFEnq (zi (if known then (try Hashtbl.find addr_tab tag with Not_found -> 0) else 0))
   | "Q" :: "{" :: rest when not deferred ->
       let body = (match List.rev rest with "}" :: r -> List.rev r | _ -> failwith "bad Q") in
       CQueue (List.map (resolve ~deferred:true seqc) (List.filter (fun x -> x <> []) (split_on "|" body)))
@@ -79,7 +110,7 @@ let () =
     | [] -> ()
     | "case" :: id :: clk0 :: _ ->
         st := init (zi (int_of_string clk0)); dead := false;
-        Hashtbl.reset addr_tab; Hashtbl.reset ids; Hashtbl.reset inflight_ids; qadds := [];
+        Hashtbl.reset addr_tab; Hashtbl.reset ids; Hashtbl.reset inflight_ids; qadds := []; pending_infl := [];
         Printf.printf "case %s\n" id; flush stdout
     | ["addr"; tag; a] -> Hashtbl.replace addr_tab (int_of_string tag) (int_of_string a)
     | ["end"] ->
@@ -102,8 +133,13 @@ let () =
             | ["P"] -> RunPending
             | _ -> Cb (resolve seqc w) in
           (match step !st o with
-           | Ok (st', evs) -> st := st'; (match o with RunPending -> learn_adds evs | _ -> ()); Printf.printf "ok %s | %s\n" (show_events evs) (show_state st')
-           | Rejected -> Printf.printf "rejected - | %s\n" (show_state !st)
+           | Ok (st', evs) ->
+               st := st';
+               List.iter (fun (tag, id) -> Hashtbl.replace inflight_ids tag id) (List.rev !pending_infl); pending_infl := [];
+               (match o with RunPending -> learn_adds evs | _ -> ());
+               publish st';
+               Printf.printf "ok %s | %s\n" (show_events evs) (show_state st')
+           | Rejected -> pending_infl := []; Printf.printf "rejected - | %s\n" (show_state !st)
            | Fault -> dead := true; print_string "FAULT\n")
         end;
         flush stdout
